@@ -131,6 +131,18 @@ impl std::fmt::Debug for Ty {
 }
 
 impl Ty {
+    /// The constructor a type is built from, if it has one (`T[int32]` with a type parameter `T`
+    /// is rejected by the typer but still reaches the editor queries).
+    pub fn try_constr_name(&self) -> Option<String> {
+        match self {
+            Self::TEnum { name } | Self::TStruct { name } => Some(name.clone()),
+            Self::TApp { ty, .. } => ty.try_constr_name(),
+            Self::TVec { .. } => Some("Vec".to_string()),
+            Self::TRef { .. } => Some("Ref".to_string()),
+            _ => None,
+        }
+    }
+
     pub fn get_constr_name_unsafe(&self) -> String {
         match self {
             Self::TEnum { name } | Self::TStruct { name } => name.clone(),
